@@ -1,7 +1,25 @@
 import FranzVerif.Model.Txn
 import FranzVerif.Proof.Txn
+import FranzVerif.Proof.TxnInv
+import FranzVerif.Proof.TxnLost
 /-! C11 — transaction end results are truthful. Theorems over ALL accepted histories of `Model.Txn`;
-the tie is the history correspondence of the `txn` scenarios. -/
+the tie is the history correspondence of the `txn` scenarios.
+
+All five statements hold as first written, for every accepted history, with the observables unchanged; none
+needs a hypothesis about where the `visible` events stand relative to the `endDone` events. The reason is the
+rule `C11.harness-transaction-ended-twice`: a transaction has at most one result in the whole history
+(`Proof.Txn.Inv.resNodup`), record ids are never reused (`Inv.idsNodup`), and a `visible` event is only accepted
+when the result of the record's transaction *already logged* is a successful commit (`Inv.visOk`) — so that
+result is the only one the transaction has, before or after the `visible` event.
+
+`failed_commit_records_never_visible_partial` is kept as stated; its hypothesis `hlost` is not used, because the
+monitor refuses a visible record of a failed commit in the lost-response case too (under the separate key
+`C11.unconfirmed-commit-took-effect`, the known finding): `failed_commit_records_never_visible` is the statement
+without it. What `endResponseLost` is for is which *key* refuses such a history: the two `…_key…` theorems below
+say that the known-finding key is given only when `endResponseLost` holds, and that without a lost response the
+history is refused under a key that is not the known finding's. (`endResponseLost k h` is implied by the
+monitor's `k ∈ lostEnd`, not equivalent: it does not stop its scan at an intermediate `endStart` of another
+transaction, which the sequential harness never emits; see `Proof/TxnLost.lean`.) -/
 namespace Props.C11
 open Model.Txn Proof.Txn
 
@@ -10,34 +28,184 @@ theorem committed_records_visible (h : List Ev) (s : St) (hacc : run {} (h ++ [E
     (hcomplete : isIncomplete h = false) (id : Id) (k part : Nat)
     (hp : (id, k, part) ∈ producedOf h) (ha : id ∈ ackedOf h) (hr : (k, true, true) ∈ resultsOf h) :
     id ∈ visibleIds h := by
-  sorry
+  obtain ⟨s₁, hr₁, hchk⟩ := run_snoc hacc
+  have hi := inv_of_run hr₁
+  have hrec : (id, k, part) ∈ s₁.recs := by rw [hi.recs]; exact List.mem_reverse.2 hp
+  have hack : id ∈ s₁.acked := by rw [hi.acked]; exact List.mem_reverse.2 ha
+  have hres : resultOf s₁ k = some (true, true) := by
+    apply resultOf_of_mem hi.resultsNodup
+    rw [hi.results]; exact List.mem_reverse.2 hr
+  obtain ⟨v, hv, he⟩ := quiesce_check hchk (by rw [hi.incomplete]; exact hcomplete) (id, k, part) hrec hack hres
+  have : id ∈ s₁.vis.map (·.2.2) := List.mem_map.2 ⟨v, hv, he⟩
+  rw [hi.vis] at this
+  exact List.mem_reverse.1 this
 
 /-- When End reports an abort, none of that transaction's records is ever visible to read_committed consumers —
 also after later transactions committed (the view is read at the end of the history). -/
 theorem aborted_records_never_visible (h : List Ev) (s : St) (hacc : run {} h = some s)
     (id : Id) (k part : Nat) (ok : Bool) (hp : (id, k, part) ∈ producedOf h) (hr : (k, false, ok) ∈ resultsOf h) :
     id ∉ visibleIds h := by
-  sorry
+  intro hv
+  have := ((inv_of_run hacc).visible_result hp hv hr).1
+  cases this
+
+/-- When End reports an error for a commit, none of that transaction's records is visible (in an accepted
+history: also not when the broker handled an EndTxn request of that call and its response was lost — the
+monitor refuses that too, under the key of the known finding). -/
+theorem failed_commit_records_never_visible (h : List Ev) (s : St) (hacc : run {} h = some s)
+    (id : Id) (k part : Nat) (hp : (id, k, part) ∈ producedOf h) (hr : (k, true, false) ∈ resultsOf h) :
+    id ∉ visibleIds h := by
+  intro hv
+  have := ((inv_of_run hacc).visible_result hp hv hr).2
+  cases this
 
 /-- When End reports an error for a commit, none of that transaction's records is visible — unless the broker
 handled an EndTxn request of that very call and its response was lost (the client's documented "outcome
 unconfirmed" error; listed as a known finding against the property's second sentence). -/
 theorem failed_commit_records_never_visible_partial (h : List Ev) (s : St) (hacc : run {} h = some s)
     (id : Id) (k part : Nat) (hp : (id, k, part) ∈ producedOf h) (hr : (k, true, false) ∈ resultsOf h)
-    (hlost : endResponseLost k h = false) :
-    id ∉ visibleIds h := by
-  sorry
+    (_hlost : endResponseLost k h = false) :
+    id ∉ visibleIds h :=
+  failed_commit_records_never_visible h s hacc id k part hp hr
+
+/-- The key of the known finding is given to a `visible` event only when the record belongs to a transaction
+whose End(commit) reported an error *and* the broker handled an EndTxn request during that End call while its
+response was lost. -/
+theorem unconfirmed_key_only_when_response_lost (h : List Ev) (s : St) (hacc : run {} h = some s)
+    (part off : Nat) (id : Id)
+    (hkey : check s (.visible part off id) = some "C11.unconfirmed-commit-took-effect") :
+    ∃ k p, (id, k, p) ∈ producedOf h ∧ (k, true, false) ∈ resultsOf h ∧ endResponseLost k h = true := by
+  have hi := inv_of_run hacc
+  obtain ⟨k, htx, hres, hl⟩ := visible_check_unconfirmed hkey
+  obtain ⟨p, hp⟩ := txnOf_some htx
+  refine ⟨k, p, ?_, ?_, (lostInv_of_run hacc).lost k hl⟩
+  · rw [hi.recs] at hp; exact List.mem_reverse.1 hp
+  · have := resultOf_some hres
+    rw [hi.results] at this; exact List.mem_reverse.1 this
+
+/-- Without such a lost response, a visible record of a transaction whose End(commit) reported an error is
+refused under a key that is not the known finding's (`C11.failed-commit-record-visible`, or
+`C11.record-visible-twice` if the record was listed before). -/
+theorem failed_commit_visible_refused_key (h : List Ev) (s : St) (hacc : run {} h = some s)
+    (id : Id) (k part : Nat) (hp : (id, k, part) ∈ producedOf h) (hr : (k, true, false) ∈ resultsOf h)
+    (hlost : endResponseLost k h = false) (part' off : Nat) :
+    check s (.visible part' off id) = some "C11.failed-commit-record-visible" ∨
+    check s (.visible part' off id) = some "C11.record-visible-twice" := by
+  have hi := inv_of_run hacc
+  have htx : txnOf s id = some k := by
+    apply txnOf_of_mem hi.recsNodup (part := part)
+    rw [hi.recs]; exact List.mem_reverse.2 hp
+  have hres : resultOf s k = some (true, false) := by
+    apply resultOf_of_mem hi.resultsNodup
+    rw [hi.results]; exact List.mem_reverse.2 hr
+  have hnl : s.lostEnd.contains k = false := by
+    cases hc : s.lostEnd.contains k with
+    | false => rfl
+    | true =>
+      have := (lostInv_of_run hacc).lost k (by simpa using hc)
+      rw [hlost] at this
+      cases this
+  rw [visible_check_failed htx hres, hnl]
+  cases s.vis.any (·.2.2 == id)
+  · left; rfl
+  · right; rfl
 
 /-- A transaction whose outcome the client never confirmed (it was never ended by this client) is not
 silently merged into a later transaction: its records are not visible. -/
 theorem unended_transaction_records_never_visible (h : List Ev) (s : St) (hacc : run {} h = some s)
     (id : Id) (k part : Nat) (hp : (id, k, part) ∈ producedOf h) (hr : ∀ c ok, (k, c, ok) ∉ resultsOf h) :
     id ∉ visibleIds h := by
-  sorry
+  intro hv
+  exact hr true true ((inv_of_run hacc).visible_ended hp hv)
 
 /-- Nothing is visible that was not produced, and nothing twice. -/
 theorem visible_records_are_produced_once (h : List Ev) (s : St) (hacc : run {} h = some s) :
     (visibleIds h).Nodup ∧ ∀ id ∈ visibleIds h, ∃ k part, (id, k, part) ∈ producedOf h := by
-  sorry
+  have hi := inv_of_run hacc
+  refine ⟨hi.visNodup, ?_⟩
+  intro id hv
+  obtain ⟨k, p, h1, _⟩ := hi.visOk id hv
+  exact ⟨k, p, h1⟩
+
+/-! ### non-vacuity -/
+
+/-- Three transactions on partitions 0 and 1: transaction 1 (records 1, 2) committed, transaction 2 (record 3)
+aborted, transaction 3 (record 4) whose End(commit) reported an error after `fault 26 2` (EndTxn handled, its
+response dropped) happened during the End call. The read_committed view holds records 1 and 2 only, the
+read_uncommitted view all four. Accepted. -/
+example : accepts
+    [.begin_ 1 true, .produce 1 1 0, .produce 2 1 1, .promise 1 true 0 0, .promise 2 true 1 0,
+     .endStart 1 true, .endDone 1 true true,
+     .begin_ 2 true, .produce 3 2 0, .promise 3 true 0 2, .endStart 2 false, .endDone 2 false true,
+     .begin_ 3 true, .produce 4 3 0, .promise 4 true 0 4, .endStart 3 true, .fault 26 2, .endDone 3 true false,
+     .visible 0 0 1, .visible 1 0 2,
+     .raw 0 0 1, .raw 0 2 3, .raw 0 4 4, .raw 1 0 2, .quiesce] = true := by decide
+
+/-- The observables of that history (without the closing `quiesce`): the hypotheses of all five theorems are met
+by it (record 1: produced by 1, acknowledged, `(1, true, true)`; record 3: `(2, false, true)`; record 4:
+`(3, true, false)` with `endResponseLost 3`). -/
+example : let h : List Ev :=
+    [.begin_ 1 true, .produce 1 1 0, .produce 2 1 1, .promise 1 true 0 0, .promise 2 true 1 0,
+     .endStart 1 true, .endDone 1 true true,
+     .begin_ 2 true, .produce 3 2 0, .promise 3 true 0 2, .endStart 2 false, .endDone 2 false true,
+     .begin_ 3 true, .produce 4 3 0, .promise 4 true 0 4, .endStart 3 true, .fault 26 2, .endDone 3 true false,
+     .visible 0 0 1, .visible 1 0 2,
+     .raw 0 0 1, .raw 0 2 3, .raw 0 4 4, .raw 1 0 2]
+    producedOf h = [(1, 1, 0), (2, 1, 1), (3, 2, 0), (4, 3, 0)] ∧ ackedOf h = [1, 2, 3, 4] ∧
+    resultsOf h = [(1, true, true), (2, false, true), (3, true, false)] ∧ visibleIds h = [1, 2] ∧
+    isIncomplete h = false ∧ endResponseLost 3 h = true ∧ endResponseLost 1 h = false := by decide
+
+/-- The same history with record 4 (of the transaction whose commit reported an error after the lost response)
+in the read_committed view: refused — by the rule `C11.unconfirmed-commit-took-effect`, the known finding. -/
+example : accepts
+    [.begin_ 1 true, .produce 1 1 0, .produce 2 1 1, .promise 1 true 0 0, .promise 2 true 1 0,
+     .endStart 1 true, .endDone 1 true true,
+     .begin_ 2 true, .produce 3 2 0, .promise 3 true 0 2, .endStart 2 false, .endDone 2 false true,
+     .begin_ 3 true, .produce 4 3 0, .promise 4 true 0 4, .endStart 3 true, .fault 26 2, .endDone 3 true false,
+     .visible 0 0 1, .visible 1 0 2, .visible 0 4 4,
+     .raw 0 0 1, .raw 0 2 3, .raw 0 4 4, .raw 1 0 2, .quiesce] = false := by decide
+example : (run {}
+    [.begin_ 1 true, .produce 1 1 0, .produce 2 1 1, .promise 1 true 0 0, .promise 2 true 1 0,
+     .endStart 1 true, .endDone 1 true true,
+     .begin_ 2 true, .produce 3 2 0, .promise 3 true 0 2, .endStart 2 false, .endDone 2 false true,
+     .begin_ 3 true, .produce 4 3 0, .promise 4 true 0 4, .endStart 3 true, .fault 26 2, .endDone 3 true false,
+     .visible 0 0 1, .visible 1 0 2]).bind (fun s => check s (.visible 0 4 4))
+    = some "C11.unconfirmed-commit-took-effect" := by decide
+/-- Without the lost response the same record is refused by `C11.failed-commit-record-visible`. -/
+example : (run {}
+    [.begin_ 3 true, .produce 4 3 0, .promise 4 true 0 4, .endStart 3 true, .endDone 3 true false]).bind
+      (fun s => check s (.visible 0 4 4))
+    = some "C11.failed-commit-record-visible" := by decide
+
+/-- A visible record of an aborted transaction: refused. -/
+example : accepts
+    [.begin_ 2 true, .produce 3 2 0, .promise 3 true 0 0, .endStart 2 false, .endDone 2 false true,
+     .visible 0 0 3, .raw 0 0 3, .quiesce] = false := by decide
+/-- … also when a later transaction committed in between. -/
+example : accepts
+    [.begin_ 2 true, .produce 3 2 0, .promise 3 true 0 0, .endStart 2 false, .endDone 2 false true,
+     .begin_ 3 true, .produce 4 3 0, .promise 4 true 0 2, .endStart 3 true, .endDone 3 true true,
+     .visible 0 0 3, .visible 0 2 4, .raw 0 0 3, .raw 0 2 4, .quiesce] = false := by decide
+
+/-- A visible record of a transaction that was never ended by this client (the client restarted and a later
+transaction committed): refused. -/
+example : accepts
+    [.begin_ 1 true, .produce 1 1 0, .promise 1 true 0 0,
+     .begin_ 2 true, .produce 2 2 0, .promise 2 true 0 1, .endStart 2 true, .endDone 2 true true,
+     .visible 0 0 1, .visible 0 1 2, .quiesce] = false := by decide
+
+/-- A committed, acknowledged record missing from the read_committed view: refused (at `quiesce`). -/
+example : accepts
+    [.begin_ 1 true, .produce 1 1 0, .produce 2 1 1, .promise 1 true 0 0, .promise 2 true 1 0,
+     .endStart 1 true, .endDone 1 true true,
+     .visible 0 0 1, .raw 0 0 1, .raw 1 0 2, .quiesce] = false := by decide
+
+/-- A record listed twice, and a record that was never produced: refused. -/
+example : accepts
+    [.begin_ 1 true, .produce 1 1 0, .promise 1 true 0 0, .endStart 1 true, .endDone 1 true true,
+     .visible 0 0 1, .visible 0 1 1, .quiesce] = false := by decide
+example : accepts
+    [.begin_ 1 true, .produce 1 1 0, .promise 1 true 0 0, .endStart 1 true, .endDone 1 true true,
+     .visible 0 0 1, .visible 0 1 7, .quiesce] = false := by decide
 
 end Props.C11
